@@ -21,6 +21,25 @@ struct badpg { int as; uint64_t a; int st; };
 static struct badpg bad[256]; static unsigned nbad;
 static unsigned long rcaps = 7;
 static unsigned npages;
+/* C16 mode (`c16 1`): every failure raised by a callback carries its own event number in its message
+ * (`[ev<n>] ...`), every page request is listed (`P <as> <addr>` lines) and osinit / conv print an `E` line:
+ *   E <op> <status> ev=<events so far> | <error string of the context, "-" when empty>
+ * None of these lines starts with `>`, so the C08 observation stream is unchanged. */
+static int c16mode; static unsigned evno;
+static addrxlat_ctx_t *ctx_for_c16(void);
+static addrxlat_status cb_fail(const addrxlat_cb_t *cb, addrxlat_status st, const char *what, const char *name)
+{
+	if (c16mode)
+		return addrxlat_ctx_err(cb->priv, st, "[ev%u] %s%s%s", ++evno, what, *name ? " " : "", name);
+	return addrxlat_ctx_err(cb->priv, st, "%s%s%s", what, *name ? " " : "", name);
+}
+static void c16_line(const char *op, addrxlat_status st)
+{
+	const char *e;
+	if (!c16mode) return;
+	e = addrxlat_ctx_get_err(ctx_for_c16());
+	printf("E %s %s ev=%u | %s\n", op, xstatus_name(st), evno, e && *e ? e : "-");
+}
 
 static uint32_t mix(uint64_t as, uint64_t a4)
 {
@@ -59,11 +78,12 @@ static addrxlat_status get_page(const addrxlat_cb_t *cb, addrxlat_buffer_t *buf)
 	unsigned char *p; unsigned i;
 	++npages;
 	if ((int)buf->addr.as < 0 || buf->addr.as > 2)
-		return addrxlat_ctx_err(cb->priv, ADDRXLAT_ERR_NODATA, "no such address space");
+		return cb_fail(cb, ADDRXLAT_ERR_NODATA, "no such address space", "");
 	buf->addr.addr &= ~(addrxlat_addr_t)0xfff;
+	if (c16mode == 1) printf("P %d %" PRIu64 "\n", (int)buf->addr.as, (uint64_t)buf->addr.addr);
 	for (i = nbad; i-- > 0; )
 		if (bad[i].as == (int)buf->addr.as && bad[i].a == buf->addr.addr)
-			return addrxlat_ctx_err(cb->priv, bad[i].st, "page not available");
+			return cb_fail(cb, bad[i].st, "page not available", "");
 	p = malloc(4096);
 	for (i = 0; i < 1024; ++i) {
 		uint32_t v = cell(buf->addr.as, buf->addr.addr + 4 * i);
@@ -80,11 +100,20 @@ static unsigned long read_caps(const addrxlat_cb_t *cb) { return rcaps; }
 /* ----------------------------------------------------------------- symbols */
 struct symdef { char kind[12]; char name[96]; uint64_t val; };
 static struct symdef syms[256]; static unsigned nsyms;
+/* `hide <kind> <name> <status>`: look-ups of that one name fail with that status (`hide - - ok` = none) */
+static char hide_kind[16], hide_name[96]; static int hide_st;
 static addrxlat_status look(const addrxlat_cb_t *cb, const char *kind, const char *name, addrxlat_addr_t *val)
 {
 	unsigned i;
+	if (hide_st && !strcmp(hide_kind, kind) && !strcmp(hide_name, name))
+		return cb_fail(cb, hide_st, "refused", name);
 	for (i = nsyms; i-- > 0; )
 		if (!strcmp(syms[i].kind, kind) && !strcmp(syms[i].name, name)) { *val = syms[i].val; return ADDRXLAT_OK; }
+	if (c16mode) {
+		char what[32];
+		snprintf(what, sizeof what, "no %s", kind);
+		return cb_fail(cb, ADDRXLAT_ERR_NODATA, what, name);
+	}
 	return addrxlat_ctx_err(cb->priv, ADDRXLAT_ERR_NODATA, "no %s %s", kind, name);
 }
 static addrxlat_status cb_reg(const addrxlat_cb_t *cb, const char *name, addrxlat_addr_t *val) { return look(cb, "reg", name, val); }
@@ -99,6 +128,7 @@ static addrxlat_status cb_offsetof(const addrxlat_cb_t *cb, const char *obj, con
 }
 
 static addrxlat_ctx_t *ctx; static addrxlat_cb_t *cb; static addrxlat_sys_t *sys;
+static addrxlat_ctx_t *ctx_for_c16(void) { return ctx; }
 static void new_ctx(void)
 {
 	if (ctx) addrxlat_ctx_decref(ctx);
@@ -115,6 +145,7 @@ static addrxlat_status status_of(const char *s)
 	if (!strcmp(s, "invalid")) return ADDRXLAT_ERR_INVALID;
 	if (!strcmp(s, "nomem")) return ADDRXLAT_ERR_NOMEM;
 	if (!strcmp(s, "nodata")) return ADDRXLAT_ERR_NODATA;
+	if (!strncmp(s, "custom", 6)) return -(s[6] ? atoi(s + 6) : 4);   /* a caller's own status, e.g. a tunnelled kdump_status */
 	return ADDRXLAT_ERR_NOMETH;
 }
 
@@ -252,6 +283,12 @@ int main(void)
 			new_ctx();
 		} else if (sscanf(line, "rcaps %lu", &caps) == 1) {
 			rcaps = caps;
+		} else if (sscanf(line, "c16 %d", &t) == 1) {
+			c16mode = t;        /* 1: tags, E lines and P lines; 2: tags and E lines */
+		} else if (!strncmp(line, "unbad", 5)) {
+			nbad = 0; new_ctx();
+		} else if (sscanf(line, "hide %15s %95s %31s", kind, sname, fmt) == 3) {
+			strcpy(hide_kind, kind); strcpy(hide_name, sname); hide_st = status_of(fmt);
 		} else if (sscanf(line, "sym %15s %95s %" SCNu64, kind, sname, &a) == 3) {
 			if (nsyms < 256) { strcpy(syms[nsyms].kind, kind); strcpy(syms[nsyms].name, sname); syms[nsyms].val = a; ++nsyms; }
 		} else if (!strncmp(line, "osinit", 6)) {
@@ -272,6 +309,7 @@ int main(void)
 			npages = 0;
 			st = addrxlat_sys_os_init(sys, ctx, no, opts);
 			printf("> osinit %s | pages=%u inflight=%s\n", xstatus_name(st), npages, ctx->inflight ? "LEFT" : "0");
+			c16_line("osinit", st);
 			dump_sys();
 			puts("> end");
 		} else if (!strncmp(line, "dump", 4)) {
@@ -330,6 +368,7 @@ int main(void)
 			fa.as = t; fa.addr = a;
 			st = addrxlat_fulladdr_conv(&fa, tas, ctx, sys);
 			printf("> conv %s %d %" PRIu64 "\n", xstatus_name(st), (int)fa.as, (uint64_t)fa.addr);
+			c16_line("conv", st);
 		} else if (sscanf(line, "q %" SCNu64, &a) == 1) {
 			do_q(a);
 		} else if (sscanf(line, "rt %" SCNu64, &a) == 1) {
